@@ -63,12 +63,17 @@ CLAIMED = {
              "folding model is tied to scaling_circuit_folding by vm_compute correspondence; a numpy sweep covers "
              "PauliRotation, UnitaryMatrix, the residual-count arithmetic and noiseless ZNE with every extrapolation method "
              "(defects found there were repaired: the sign of the exponential term in the log fit, fix: bd235b5, and the "
-             "underdetermined polynomial fit with fewer (distinct) scale factors than coefficients, fix: 481918f, 2b16e10; and curve_fit rejecting a fit converged to machine precision, fix: d3b9a3c).",
+             "underdetermined polynomial fit with fewer (distinct) scale factors than coefficients, fix: 481918f, 2b16e10; and curve_fit rejecting a fit converged to machine precision, fix: d3b9a3c). "
+             "noiseless_polynomial_extrapolation_returns_the_exact_value (PolyFit.v): with the same value E at every scale factor, order + 1 "
+             "distinct scale factors (the guard of polynomial_fitting) and numpy's fit taken by its contract (<= order + 1 coefficients, least-"
+             "squares minimiser; validated against polynomial_fitting by corr_C12_fit.py), the fitted polynomial is the constant E and "
+             "parameters[0] = E, for any number / order / repetition of scale factors and any polynomial order.",
         design_ref="DESIGN.md section 4 (C12)",
         note="Trusted: Coq kernel+vm_compute; Reals axioms + funext; translate/inverse.py; documented matrices. "
              "PauliRotation and UnitaryMatrix gates have pauli_rotation_inverse_undoes / unitary_matrix_inverse_undoes over the "
-             "branch data regenerated from inverse_gate (angle scale, conjugate-transpose flags). Partial: float arithmetic of "
-             "the residual gate count, extrapolation numerics and qsub Inverse (C19) are decided by the sweep.",
+             "branch data regenerated from inverse_gate (angle scale, conjugate-transpose flags). numpy's Polynomial.fit enters the ZNE theorem as a contract "
+             "(least-squares minimiser), validated by correspondence. Partial: float arithmetic of "
+             "the residual gate count, the exponential extrapolations (scipy curve_fit) and qsub Inverse (C19) are decided by the sweep.",
         technique="Coq proof over a table regenerated by symbolic evaluation of inverse_gate + induction over "
                   "circuits; vm_compute correspondence of the folding model; numpy sweep"),
     "C02": dict(
